@@ -27,7 +27,8 @@ def link_faulty(rng: Rng, oracle, kmax=5, pacing=0.3, cancel=False, **force):
         kinds = ("drop", "dup", "delay", "flip")
         rej = rng.chance(0.2)
     k = rng.randrange(0, kmax + 1)
-    l = g.link_session(rng, k, pacing=rng.chance(pacing), cfg=c, kinds=kinds, rejects=rej, cancel=cancel)
+    l = g.link_session(rng, k, pacing=rng.chance(pacing), cfg=c, kinds=kinds, rejects=rej, cancel=cancel,
+                       fs_kind="native" if rng.chance(0.25) else "mem")
     r = l.run()
     tr = Trace.of_session(l.sess)
     return l.sess, oracle(tr, c, r), c, {"plan": plan_text(l.plan), "stuck": r.stuck}
@@ -35,7 +36,9 @@ def link_faulty(rng: Rng, oracle, kmax=5, pacing=0.3, cancel=False, **force):
 
 def link_clean(rng: Rng, oracle, **force):
     c = rand_cfg(rng, **force)
-    l = g.link_session(rng, 0, pacing=rng.chance(0.6), cfg=c)
+    # a third of the sessions on the native filestore (sandbox): the library's own checksum and file
+    # access code is then in the loop, not the harness's in-memory filestore
+    l = g.link_session(rng, 0, pacing=rng.chance(0.6), cfg=c, fs_kind="native" if rng.chance(0.34) else "mem")
     r = l.run()
     tr = Trace.of_session(l.sess)
     return l.sess, oracle(tr, c, r), c, {"stuck": r.stuck}
